@@ -1823,6 +1823,9 @@ class VariableNode(AstNode):
         self.name = ast.name
         if self.name is None:
             raise RuntimeError("Missing name in declaration: " + decl)
+        if not isinstance(self.name, str):
+            raise RuntimeError(
+                "Attribute 'name' must have a value: " + decl)
 
         # format for struct
         fmt_var = self.fmtdict
